@@ -188,6 +188,42 @@ Section Parallel.
     | [] => None
     | p :: _ => Some (snd p)
     end.
+
+  (* ---- the store write as SQLite shows it to sync_individual (datastore.py 157-168) ----
+     sync_individual opens a connection of its own, INSERTs (Python's sqlite3 issues BEGIN EXCLUSIVE first) and COMMITs.
+     While another connection owns the database lock the INSERT raises sqlite3.OperationalError ("database is locked")
+     after the busy timeout; sync_individual then calls ITSELF again: a new connection, the same upsert - an unbounded
+     retry.  A refused attempt has written nothing (a COMMIT that fails is rolled back) and touches nothing of the shared
+     Problem: it is a step without effect, and it is not a failure of the evaluation.  ASSUMPTION of the model (and of the
+     property): the lock is eventually released, i.e. every execution contains the successful write KSync of every task.
+     An extended execution is a list of ordinary steps and refused write attempts; KSync stays the atomic upsert. *)
+  Inductive xstep := XStep (s : step) | XRefused (id att : nat).
+
+  Definition xexec (e : env) (ps : pstate) (x : xstep) : pstate :=
+    match x with XStep s => exec e ps s | XRefused _ _ => ps end.
+  Definition xrun (e : env) (tr : list xstep) (ps : pstate) : pstate := fold_left (xexec e) tr ps.
+
+  (* the execution without the refused attempts *)
+  Fixpoint erase (tr : list xstep) : list step :=
+    match tr with
+    | [] => []
+    | XStep s :: r => s :: erase r
+    | XRefused _ _ :: r => erase r
+    end.
+
+  (* refused attempts are made by a task that is writing: after its KWrite, before its KSync (not needed by the
+     theorems, which hold wherever the refusals are; used by the non-vacuity example) *)
+  Fixpoint refusals_while_writing (writing : list nat) (tr : list xstep) : bool :=
+    match tr with
+    | [] => true
+    | XStep s :: r =>
+        match st_kind s with
+        | KWrite => refusals_while_writing (st_id s :: writing) r
+        | KSync => refusals_while_writing (filter (fun k => negb (k =? st_id s)) writing) r
+        | _ => refusals_while_writing writing r
+        end
+    | XRefused id _ :: r => existsb (Nat.eqb id) writing && refusals_while_writing writing r
+    end.
 End Parallel.
 
 Arguments lift {T} st.
